@@ -109,6 +109,10 @@ func Start(id, level string) *Run {
 // Home is the /verif tree the running check belongs to (VERIF_HOME is exported by bin/check).
 func Home() string { return envOr("VERIF_HOME", "/verif") }
 
+// Repo is the repository tree the monitors are built from and read contract sources from
+// (VERIF_REPO is exported by bin/check; /repo unless a background run works on a snapshot).
+func Repo() string { return envOr("VERIF_REPO", "/repo") }
+
 func envOr(k, d string) string {
 	if v := os.Getenv(k); v != "" {
 		return v
